@@ -117,6 +117,16 @@ fn big_oracle(_docs: &[&crate::model::Node], bytes: &[Vec<u8>]) -> Result<bool, 
     Ok(true)
 }
 
+/// half of the cases are written with the full surface variation (comments, processing instructions, prolog, DOCTYPE,
+/// CDATA, entity references): none of it may reach the rendered source
+fn surface(tapes: &Tapes) -> SurfaceCfg {
+    if tapes.b.first().map(|b| b & 2 == 2).unwrap_or(false) {
+        SurfaceCfg::full()
+    } else {
+        SurfaceCfg::plain()
+    }
+}
+
 impl Property for C04 {
     fn id(&self) -> &'static str {
         "C04"
@@ -134,10 +144,16 @@ impl Property for C04 {
         64
     }
     fn check(&self, tapes: &Tapes, st: &mut Stats) -> Result<(), Failure> {
-        let p = prepare(tapes, &domain(), &SurfaceCfg::plain());
+        let p = prepare(tapes, &domain(), &surface(tapes));
         let mut tc = Tape::new(&tapes.c);
         let by_name = tc.chance(128);
         let serde_xml_rs = tc.chance(80);
+        if p.ser.comments > 0 {
+            st.count("surface.documents_with_comments");
+        }
+        if p.ser.cdata > 0 {
+            st.count("surface.documents_with_cdata");
+        }
         let root = parse_docs(&p.bytes)?;
         let mut opts = if serde_xml_rs { crate::sut::Options::serde_xml_rs() } else { crate::sut::Options::quick_xml_de() };
         if by_name {
@@ -286,7 +302,7 @@ impl Property for C04 {
         ]
     }
     fn describe(&self, tapes: &Tapes) -> Value {
-        describe_case(&prepare(tapes, &domain(), &SurfaceCfg::plain()))
+        describe_case(&prepare(tapes, &domain(), &surface(tapes)))
     }
     fn health(&self, _tier: Tier) -> Vec<(&'static str, u64)> {
         vec![("nontrivial", 5000), ("struct_name_with_numeric_suffix", 500), ("field_collision_resolved", 3000), ("preset.serde_xml_rs", 3000)]
